@@ -64,7 +64,7 @@ def build(ns, spec, env, cache=None):
     if t == "var":
         if spec.get("str"):
             return spec["id"]
-        key = ("var", spec["id"])
+        key = ("var", spec["id"], spec.get("occ", 0))
         if key not in cache:
             cache[key] = puan.variable(spec["id"], bounds=(P(env, spec.get("lo", 0)), P(env, spec.get("hi", 1))))
         return cache[key]
